@@ -173,12 +173,15 @@ def check_target(ctx, code, inst, shape, o, e, where):
         expect = "near_branch64(instr)"
         okv = val[0] == "ret" and val[1] == NEAR_BRANCH and val[2] == (P.INSTR,)
     elif kinds and kinds[0] == "r64_or_mem":
+        # the operand is evaluated on the machine state at instruction entry (before any push / register write):
+        # register, address and memory versions must all be the entry versions
         if label == "reg":
-            expect = "reg_read_64(op0)"
-            okv = val[0] == "reg" and val[1] == 64 and val[2] == ("opreg", 0)
+            expect = "reg_read_64(op0) on the entry state"
+            okv = val[0] == "reg" and val[1] == 64 and val[2] == ("opreg", 0) and val[3] == 0
         else:
-            expect = "mem_read_64(mem_addr(op0))"
-            okv = val[0] == "mem" and val[1] == 64 and U.strip(val[2])[0] == "addr" and U.strip(val[2])[1] == ("opmem", 0)
+            expect = "mem_read_64(mem_addr(op0)) on the entry state"
+            ad = U.strip(val[2]) if val[0] == "mem" else ("?",)
+            okv = val[0] == "mem" and val[1] == 64 and ad[0] == "addr" and ad[1] == ("opmem", 0) and ad[2] == 0 and val[3] == 0
     elif oc["flow"] == "Return":
         expect = "mem_read_64(f(RSP))"
         if val[0] == "mem" and val[1] == 64:
@@ -192,8 +195,11 @@ def check_target(ctx, code, inst, shape, o, e, where):
         ck.ok("C03.target", inst)
         ck.sample({"rule": "C03.target", "instance": inst, "rip_value": A.show(val), "expected": expect})
     else:
-        ck.violation("C03.target", inst, "RIP := %s, expected %s" % (A.show(val), expect), where=where,
-                     what="branch target computed from the wrong source")
+        stale = ""
+        if val[0] in ("reg", "mem") and (val[3] != 0 or (val[0] == "mem" and U.strip(val[2])[0] == "addr" and U.strip(val[2])[2] != 0)):
+            stale = " (operand read after the instruction already changed registers/memory)"
+        ck.violation("C03.target", inst, "RIP := %s, expected %s%s" % (A.show(val), expect, stale), where=where,
+                     what="branch target computed from the wrong source or from a state the instruction already modified")
 
 
 def step_advance(ctx):
